@@ -175,6 +175,9 @@ struct Model {
     other_frames: u64,
     /// armed by a paged step: event to apply right after the first page of rows has been served
     mid_event: Option<(Value, Step)>,
+    /// during a pair of simultaneous executions: node 1 answers EXECUTE this many ms late (so that its UNPREPARED arrives after
+    /// the other execution has finished re-preparing on node 0)
+    slow1_ms: u64,
 }
 
 fn mid(ver: u8) -> Vec<u8> {
@@ -265,7 +268,7 @@ impl Answer {
 
 impl Model {
     fn new(ext: [bool; NODES]) -> Model {
-        Model { ver: 1, extra: 0, bgen: 0, ext, prepared: [HashSet::new(), HashSet::new()], salt: [0; NODES], frames: vec![], other_frames: 0, mid_event: None }
+        Model { ver: 1, extra: 0, bgen: 0, ext, prepared: [HashSet::new(), HashSet::new()], salt: [0; NODES], frames: vec![], other_frames: 0, mid_event: None, slow1_ms: 0 }
     }
 
     fn apply_event(&mut self, st: &Step) {
@@ -452,6 +455,9 @@ impl Model {
                 self.apply_event(&st);
                 self.frames.push(json!({"midev": echo}));
             }
+        }
+        if self.slow1_ms > 0 && n == 1 && req.opcode == 0x0A {
+            return Action::DelayMs(self.slow1_ms, Box::new(Action::Reply(ans.reply)));
         }
         Action::Reply(ans.reply)
     }
@@ -645,7 +651,9 @@ async fn run_with_mock(h: &History, mock: &MockCluster, model: &Arc<Mutex<Model>
                 p0.set_load_balancing_policy(Some(forced(0)));
                 p1.set_load_balancing_policy(Some(forced(1)));
                 let (k0, k1) = (*k, k.wrapping_add(1));
+                model.lock().unwrap().slow1_ms = if k % 2 == 0 { 40 } else { 0 };
                 let (r0, r1) = tokio::join!(session.execute_unpaged(&p0, (k0,)), session.execute_unpaged(&p1, (k1,)));
+                model.lock().unwrap().slow1_ms = 0;
                 json!({"ok": 1, "pair": [collect_unpaged(r0), collect_unpaged(r1)]})
             }
             Step::CExec(n, k) => {
